@@ -687,5 +687,30 @@ def rule_runtime_support(rep: Report, repo: Repo):
     rep.check(ok and mk is not None and "entry is zero" in mk, R,
               "series::BlockSeries.__getitem__ masks exactly the absent (`zero`) elements of a multi-element result", str(mk)[:80], repo.loc("series", gi))
     dflt = repo.find("series::BlockSeries::__init__", R)
-    ev = [norm(n.value) for n in ast.walk(dflt) if isinstance(n, ast.Assign) and norm(n.targets[0]) == "self.eval"]
-    rep.check(ev == ["(lambda *_: zero) if eval is None else eval"], R, "series::BlockSeries default eval returns `zero` (absent term)", str(ev), repo.loc("series", dflt))
+    from .paths import eval_bool
+    from .sem import canon, outcomes
+    got = {}
+    for is_none in (True, False):
+        def atom(n):
+            t = norm(canon(n))
+            if t == "eval is None":
+                return is_none
+            if t == "eval is not None":
+                return not is_none
+            return None
+        vals = set()
+        for o in outcomes(dflt.body, None, env={}, atom=atom):
+            for kind, st, rv in o.seq:
+                if kind == "assign" and norm(st.targets[0] if isinstance(st, ast.Assign) else st.target) == "self.eval":
+                    while isinstance(rv, ast.IfExp):
+                        v = eval_bool(rv.test, atom)
+                        if v is None:
+                            raise AnalysisError(R, f"BlockSeries.__init__: `self.eval` depends on `{norm(rv.test)}`")
+                        rv = rv.body if v else rv.orelse
+                    vals.add(norm(rv))
+        got[is_none] = vals
+    if not got[True] or not got[False]:
+        raise AnalysisError(R, "BlockSeries.__init__: assignment of self.eval not found")
+    ok = got[False] == {"eval"} and all(v.startswith("lambda") and v.endswith(": zero") for v in got[True])
+    rep.check(ok, R, "series::BlockSeries default eval returns `zero` (absent term)",
+              f"eval given -> {sorted(got[False])}; eval None -> {sorted(got[True])}", repo.loc("series", dflt))
